@@ -5,9 +5,11 @@ set -u
 export GOFLAGS=-mod=mod GOPROXY=off GOSUMDB=off GOTOOLCHAIN=local
 ID="$1"; TIER="${2:-quick}"
 export VERIF_TIER="$TIER"
-cd /verif/harness || exit 2
-mkdir -p /verif/.bin /verif/evidence
-BIN="/verif/.bin/verifx.$$"
+ROOT="$(cd "$(dirname "$0")/.." && pwd)"
+export VERIF_DIR="${VERIF_DIR:-$ROOT}"
+cd "$ROOT/harness" || exit 2
+mkdir -p "$ROOT/.bin" "$VERIF_DIR/evidence"
+BIN="$ROOT/.bin/verifx.$$"
 trap 'rm -f "$BIN"' EXIT
 OVL=()
 if [ -n "${VERIF_OVERLAY:-}" ]; then OVL=(-overlay "$VERIF_OVERLAY"); fi
